@@ -41,3 +41,18 @@ Proof. reflexivity. Qed.
 
 Lemma gen_env_sorted_by_name : env_sort_key = "Name"%string.
 Proof. reflexivity. Qed.
+
+(* C28 deepening: gotrans also pins (fail closed) the pb.Action literals of buildAction and uploadAction, the
+   build Command literal and the prefix code of buildCommand, targetPlatformProperties, convertPlatform,
+   BuildTarget.AllOutputs / Outputs / insert; the model's actmsg / cmdmsg have exactly the fields the code fills. *)
+Lemma gen_action_fields : action_fields = ["CommandDigest"; "InputRootDigest"; "Timeout"; "Platform"]%string.
+Proof. reflexivity. Qed.
+
+Lemma gen_command_fields : command_fields = ["Platform"; "Arguments"; "EnvironmentVariables"; "OutputPaths"]%string.
+Proof. reflexivity. Qed.
+
+(* the shapes under which the model's all_outputs / target_platform leave output directories and platform
+   properties in declaration order, and sort target.Env keys and the outputs *)
+Lemma gen_sorted_by_code :
+  sorted_by_code = [("target.Env keys", true); ("Outputs", true); ("OutputDirectories", false); ("Platform", false)]%string.
+Proof. reflexivity. Qed.
